@@ -114,3 +114,16 @@ func (p *Parker) ReleaseAll() {
 		close(g.ch)
 	}
 }
+
+// Only restricts holding to the given sites.
+func (p *Parker) Only(sites ...string) {
+	keep := map[string]bool{}
+	for _, s := range sites {
+		keep[s] = true
+	}
+	for s := range p.plan {
+		if !keep[s] {
+			p.plan[s] = nil
+		}
+	}
+}
